@@ -60,6 +60,8 @@ func init() {
 }
 
 func runC12(c *Ctx, r *Report) {
+	r.Rule("C12/pattern-not-overwritten", "no compiled pattern is overwritten in place (the default prompt pattern is shared by every channel of the process)", 1)
+	checkNoRegexpOverwrite(c, r, "C12/pattern-not-overwritten")
 	importFoundation(c, r, "C12", "ansi")
 	importFoundation(c, r, "C12", "send-input")
 	importFoundation(c, r, "C12", "read-loop")
